@@ -76,7 +76,7 @@ func (c *Classifier) Classify(t *html.Node) (Type, Reason) {
 	}
 
 	// 2) Table having role="presentation" is layout table.
-	tableRole := strings.ToLower(dom.GetAttribute(t, "role"))
+	tableRole := firstRole(t)
 	if tableRole == "presentation" {
 		return c.logAndReturn(Layout, RoleTable)
 	}
@@ -93,7 +93,7 @@ func (c *Classifier) Classify(t *html.Node) (Type, Reason) {
 	// descendants.
 	directDescendants := c.getDirectDescendants(t)
 	for _, element := range directDescendants {
-		role := strings.ToLower(dom.GetAttribute(element, "role"))
+		role := firstRole(element)
 		_, ariaRoleExist := ariaRoles[role]
 		_, ariaDescendantExist := ariaTableDescendantRoles[role]
 		if ariaRoleExist || ariaDescendantExist {
@@ -211,6 +211,16 @@ func (c *Classifier) Classify(t *html.Node) (Type, Reason) {
 
 	// 18) Otherwise, it's data table.
 	return c.logAndReturn(Data, Default)
+}
+
+// firstRole returns the role of the element in lower case. The value of the role
+// attribute is a list of tokens separated by white space, in any letter case; the
+// first token is the role, the others are fallbacks.
+func firstRole(element *html.Node) string {
+	for _, role := range strings.Fields(strings.ToLower(dom.GetAttribute(element, "role"))) {
+		return role
+	}
+	return ""
 }
 
 func (c *Classifier) hasNestedTables(t *html.Node) bool {
